@@ -9,6 +9,7 @@ import (
 	"saomc/world"
 
 	didtypes "github.com/SaoNetwork/sao/x/did/types"
+	modeltypes "github.com/SaoNetwork/sao/x/model/types"
 	nodetypes "github.com/SaoNetwork/sao/x/node/types"
 	ordertypes "github.com/SaoNetwork/sao/x/order/types"
 	saotypes "github.com/SaoNetwork/sao/x/sao/types"
@@ -129,9 +130,30 @@ func (nullGhost) Bytes() []byte       { return nil }
 func (AuthOracle) InitGhost(*world.World, sdk.Context) engine.Ghost { return nullGhost{} }
 
 func (o AuthOracle) Step(si *engine.StepInfo) []engine.Finding {
-	if si.Post == nil || si.Op.Meta == nil || si.Op.Meta["adv"] == "" {
+	if si.Post == nil || si.Op.Meta == nil {
 		return nil
 	}
+	var paid []engine.Finding
+	if did := si.Op.Meta["signer_did"]; o.Prop == "C10" && did != "" {
+		// an order is charged only to the payment address of the DID whose signed request this is
+		want := ""
+		if a, err := si.W.App.DidKeeper.GetCosmosPaymentAddress(si.PreCtx, did); err == nil {
+			want = a.String()
+		}
+		for _, f := range si.Res.Flows {
+			if isModule(f.To) == ordertypes.ModuleName && isModule(f.From) == "" && f.From != want {
+				paid = append(paid, fd("C10", "charged-without-own-request", si.Op.Kind, fmt.Sprintf("%s: the request is signed by %s, but %s is charged %s", si.Op.Label, si.W.NameOf(want), si.W.NameOf(f.From), f.Amt)))
+			}
+		}
+	}
+	if si.Op.Meta["adv"] == "" {
+		return paid
+	}
+	out := o.advStep(si)
+	return append(out, paid...)
+}
+
+func (o AuthOracle) advStep(si *engine.StepInfo) []engine.Finding {
 	w := si.W
 	pre, post := snapOf(w, si.PreCtx, si.Pre), snapOf(w, si.PostCtx, si.Post)
 	var a, b string
@@ -300,7 +322,20 @@ func c09Adversarial(w *world.World, ctx sdk.Context, data string) []engine.Op {
 	// sid owner: attacker signs with its own key while the kid names the victim DID
 	if meta.Owner == sidVictim.Did {
 		x := w.A(world.X).S()
-		for _, v := range []struct{ name, kid string }{
+		type kidv struct{ name, kid string }
+		var enumerated []kidv
+		// every kid with one or two version-like parameters: names the resolver and hand-written parsers may or may
+		// not recognise, values the attacker's and the victim's document, both orders
+		pnames := []string{"version-id", "versionId", "xversionId", "version-idx", "version%2Did"}
+		for _, n1 := range pnames {
+			enumerated = append(enumerated, kidv{"kid-enum:" + n1 + "=A", sidVictim.Did + "?" + n1 + "=" + sidAttacker.DocId + "#k1"})
+			for _, n2 := range pnames {
+				enumerated = append(enumerated,
+					kidv{"kid-enum:" + n1 + "=A&" + n2 + "=V", sidVictim.Did + "?" + n1 + "=" + sidAttacker.DocId + "&" + n2 + "=" + sidVictim.DocId + "#k1"},
+					kidv{"kid-enum:" + n1 + "=V&" + n2 + "=A", sidVictim.Did + "?" + n1 + "=" + sidVictim.DocId + "&" + n2 + "=" + sidAttacker.DocId + "#k1"})
+			}
+		}
+		for _, v := range append([]kidv{
 			{"kid-victim-did-attacker-version", sidVictim.Did + "?version-id=" + sidAttacker.DocId + "#k1"},
 			{"kid-victim-did-victim-version", sidVictim.Kid(sidVictim.DocId)},
 			{"kid-attacker-did", sidAttacker.Kid(sidAttacker.DocId)},
@@ -308,7 +343,7 @@ func c09Adversarial(w *world.World, ctx sdk.Context, data string) []engine.Op {
 			{"kid-two-versions-victim-first", sidVictim.Did + "?version-id=" + sidVictim.DocId + "&version-id=" + sidAttacker.DocId + "#k1"},
 			{"kid-mixed-spelling", sidVictim.Did + "?versionId=" + sidAttacker.DocId + "&version-id=" + sidVictim.DocId + "#k1"},
 			{"kid-no-version", sidVictim.Did + "#k1"},
-		} {
+		}, enumerated...) {
 			tp := saotypes.TerminateProposal{Owner: sidVictim.Did, DataId: data}
 			mk("terminate", "sid:"+v.name, "sid,"+v.name, &saotypes.MsgTerminate{Creator: x, Provider: x, Proposal: tp, JwsSignature: world.SignKid(sidAttacker.KeyPriv, v.kid, &tp)})
 			pp := saotypes.PermissionProposal{Owner: sidVictim.Did, DataId: data, ReadwriteDids: []string{sidAttacker.Did}}
@@ -372,14 +407,16 @@ func C09Scenario(tier string) *engine.Scenario {
 // C10: actor authorization. Adversary M = actor X with its own registered node.
 
 func c10Setup(w *world.World) []engine.SetupStep {
-	st := SetupBase(w, []int{world.O, world.X, world.P}, []int{world.G, world.X}, []int{world.S1, world.S2}, 10_000_000)
+	st := SetupBase(w, []int{world.O, world.X, world.P, world.Q}, []int{world.G, world.X}, []int{world.S1, world.S2}, 10_000_000)
 	// G registers a hot key (account W) for itself; owner-paid stores by W on behalf of G are legitimate
 	st = append(st, fixed(Tx("reset", "reset(G,tx=[W])", &nodetypes.MsgReset{Creator: w.A(world.G).S(), Status: GatewayStatus, TxAddresses: []string{w.A(world.W).S()}})))
 	// a completed order (model D1) and an order in flight (model D2) created by gateway G for owner O
 	st = append(st,
 		fixed(Tx("store", "store(11)", StoreMsg(w, StoreP{Signer: world.O, Relayer: world.G, Gateway: world.G, DataId: world.Data1, CommitId: world.Data1, Size: 1000, Replica: 1, Duration: 3600, Timeout: 100}))),
 		CompleteNth(1, 0),
-		fixed(Tx("store", "store(22)", StoreMsg(w, StoreP{Signer: world.O, Relayer: world.G, Gateway: world.G, DataId: world.Data2, CommitId: world.Data2, Size: 1000, Replica: 1, Duration: 3600, Timeout: 100}))))
+		fixed(Tx("store", "store(22)", StoreMsg(w, StoreP{Signer: world.O, Relayer: world.G, Gateway: world.G, DataId: world.Data2, CommitId: world.Data2, Size: 1000, Replica: 1, Duration: 3600, Timeout: 100}))),
+		// Q is a collaborator with read-write access to D1 (it may update the content at its own expense)
+		fixed(Tx("permission", "permission(11,rw=Q)", PermissionMsg(w, world.O, world.G, world.G, world.Data1, nil, []string{w.A(world.Q).Did}))))
 	return st
 }
 
@@ -454,6 +491,31 @@ func c10Ops(w *world.World, ctx sdk.Context) []engine.Op {
 			sp.Relayer = world.P
 			out = append(out, Tx("auth-store-sponsor", "auth-store(33,pay=P,creator=P)", StoreMsg(w, sp)))
 		}
+	}
+	// renewals: the renewal order is charged to a payment address; who signed and who submitted?
+	if m1, exists := a.ModelKeeper.GetMetadata(ctx, world.Data1); exists && m1.Status == modeltypes.MetaComplete {
+		signed := func(signer int, relayer, provider string) *saotypes.MsgRenew {
+			rp := saotypes.RenewProposal{Owner: w.A(signer).Did, Duration: 3600, Timeout: 100, Data: []string{world.Data1}}
+			return &saotypes.MsgRenew{Creator: relayer, Provider: provider, Proposal: rp, JwsSignature: world.Sign(w.A(signer).Prov, &rp)}
+		}
+		g := w.A(world.G).S()
+		withSigner := func(op engine.Op, signer int) engine.Op {
+			if op.Meta == nil {
+				op.Meta = map[string]string{}
+			}
+			op.Meta["signer_did"] = w.A(signer).Did
+			return op
+		}
+		out = append(out,
+			withSigner(advOp("adv-renew", "adv-renew(11,signed=O,creator=M,provider=M)", signed(world.O, M.S(), M.S()), meta("renew:owner-signed-submitted-by-third-party")), world.O),
+			withSigner(advOp("adv-renew", "adv-renew(11,signed=O,creator=M,provider=G)", signed(world.O, M.S(), g), meta("renew:owner-signed-third-party-claims-gateway")), world.O),
+			withSigner(advOp("adv-renew", "adv-renew(11,signed=Q,creator=G)", signed(world.Q, g, g), map[string]string{"adversary": w.A(world.Q).S(), "variant": "renew:signed-by-rw-grantee"}), world.Q),
+			withSigner(advOp("adv-renew", "adv-renew(11,signed=Q,creator=M,provider=M)", signed(world.Q, M.S(), M.S()), meta("renew:signed-by-rw-grantee-submitted-by-third-party")), world.Q),
+			withSigner(advOp("adv-renew", "adv-renew(11,signed=M,creator=M)", signed(world.X, M.S(), M.S()), meta("renew:signed-by-stranger")), world.X),
+			withSigner(Tx("auth-renew", "auth-renew(11,signed=O,creator=G)", signed(world.O, g, g)), world.O))
+		// the collaborator updates the content through the gateway (and pays for it itself)
+		next := a.OrderKeeper.GetOrderCount(ctx)
+		out = append(out, withSigner(Tx("auth-update-rw", "auth-update(11,signed=Q,creator=G)", StoreMsg(w, StoreP{Signer: world.Q, Relayer: world.G, Gateway: world.G, DataId: world.Data1, CommitId: m1.Commit + "|" + commitName(next), Size: 1000, Replica: 1, Duration: 3600, Timeout: 100, Cid: world.Cid2, Alias: m1.Alias})), world.Q))
 	}
 	// legitimate moves of the victims
 	for _, ord := range a.OrderKeeper.GetAllOrder(ctx) {
